@@ -17,7 +17,7 @@ const PropertyInfo kInfo = {
     "{cap-1, cap, cap+1 without body, cap+1 with body, 2^63, 2^64-1, 2^64, non-numeric, negative} (no body byte is sent when over the cap); TTL in {absent, min, max, "
     "min-1, max+1, mid, 0, 2^63, 2^64-1, abc, 12x, -5, empty}; STORE-POW nonce in {valid, valid for the raw / another filename only, valid for size+1 only, valid for "
     "another payload only, missing, malformed, random, invalid by construction, one bit short of the target} with PATH in {absent, plain, nested dirs, absolute, trailing slash, '.', '..', 300-byte "
-    "name, blanks and colon}; every request carries a different unauthenticated TOKEN, a shared one, an empty one or none; advances in {to the oldest accepted "
+    "name, blanks and colon}; every request carries a different unauthenticated TOKEN, a shared one, an empty one or none, FETCHes in a burst also toggle the BOOTSTRAP / DISCOVERY-* / FALLBACK headers; advances in {to the oldest accepted "
     "STORE/FETCH + 30 s exactly, -1 ns, +1 ns, 30 s, 30 s + 1 ns, ms, 1..29 s}. Oracle: a STORE is accepted only if declared length <= cap and TTL in [min,max] and "
     "(difficulty 0 or the reference digest sha256(sha256(payload) || size || len(name) || name || nonce) has >= difficulty leading zero bits for the sanitised name); an "
     "over-cap length is answered with an error while no body byte has been sent; a refused STORE leaves the chunk store unchanged; a fully valid STORE must be "
@@ -153,6 +153,14 @@ void run_case(Ctx& c) {
                 q.headers.push_back({"MANIFEST", fetch_uri});
                 q.headers.push_back({"STREAM", "client"});
                 bool tok = token_header(q, (r.a(0) + 37 * b) & 0xFF, i * 16 + b);
+                // other unauthenticated headers a client may toggle (what a hint-following `eph fetch` adds)
+                if (((r.a(2) >> (b % 8)) & 1) != 0) {
+                    q.headers.push_back({"BOOTSTRAP", "1"});
+                    q.headers.push_back({"DISCOVERY-ENDPOINT", "127.0.0.1:47777"});
+                    if (b & 1) { q.headers.push_back({"FALLBACK", "1"}); q.headers.push_back({"DISCOVERY-RESOLVED", "127.0.0.1:47777"}); }
+                    tok = true;   // (counts as "varying unauthenticated headers" for the signature)
+                    c.label("fetch_with_bootstrap_headers");
+                }
                 any_tok = any_tok || tok;
                 fetch_sent.push_back({now, tok});
                 if (in_window(fetch_sent, now) >= 13) c.nt("thirteen_fetches_in_window");
